@@ -4,7 +4,6 @@ import gc
 import hashlib
 import io
 import json
-import linecache
 import marshal
 import os
 import struct
@@ -23,7 +22,7 @@ THEOREMS = ["Pyro.C04.C04_closed", "Pyro.C04.C04_closed_loads", "Pyro.C04.C04_cl
             "Pyro.C04.C04_effects", "Pyro.C04.C04_effects_loads", "Pyro.C04.C04_effects_loadsCall",
             "Pyro.C04.C04_fuel_sufficient",
             "Pyro.C04.C04_gen_tables", "Pyro.C04.C04_gen_all_exceptions", "Pyro.C04.C04_gen_struct",
-            "Pyro.C04.C04_gen_decision_list", "Pyro.C04.C04_gen_recreate", "Pyro.C04.C04_gen_msgpack_topdown"]
+            "Pyro.C04.C04_gen_probes", "Pyro.C04.C04_gen_ext_codes"]
 SUITES = ["serpent", "marshal", "json", "msgpack"]
 RULE = ("payload trees (containers to depth 5, class-tagged dicts at any depth, wrapper chains) drawn from VERIF_SEED; tags: the nine "
         "hard-coded names, every name of vars(Pyro5.errors) / vars(builtins) / vars(sqlite3) bare and behind builtins./exceptions./"
@@ -151,7 +150,6 @@ class Real:
         self.core, self.client, self.server, self.errors, self.serializers = core, client, server, errors, serializers
         self.sers = {n: serializers.serializers[n] for n in SERS}
         SB = serializers.SerializerBase
-        self.code_mkexc = SB.make_exception.__code__
         self.code_serp = serializers.SerpentSerializer.dict_to_class.__func__.__code__
         self.code_proxy = client.Proxy.__setstate__.__code__
         self.code_exth = serializers.MsgpackSerializer.ext_hook.__code__
@@ -339,53 +337,54 @@ def err_enum(R, x):
 
 
 def ext_site(R, x):
-    """which external call (constructor, setattr, float, URI parser, set, ext parsing) raised `x`, or None if Pyro's own code did"""
+    """which external call (constructor, setattr, float, URI parser, set, ext parsing) raised `x`, or None if Pyro's own code did.
+    Decided from WHAT the frames hold, not from source text or local / helper names: an exception-class local plus the class dict
+    in the innermost frame of Pyro5/serializers.py = the constructor (or, once an instance of it exists and `attributes` is a dict,
+    setattr); SerpentSerializer.dict_to_class on a "float" dict with a value = float(); a frame below Proxy.__setstate__ = the
+    URI parser; Proxy.__setstate__ itself with a non-lookup, non-subscript error = set(); anything but SerializeError out of
+    MsgpackSerializer.ext_hook = the byte parsing."""
+    if isinstance(x, (R.errors.SerializeError, R.errors.SecurityError)):
+        return None
     frames = []
     tb = x.__traceback__
     while tb is not None:
-        frames.append((tb.tb_frame, tb.tb_lineno))
+        frames.append(tb.tb_frame)
         tb = tb.tb_next
     if not frames:
         return None
-    inner_code = frames[-1][0].f_code
-    for i in range(len(frames) - 1, -1, -1):
-        fr, ln = frames[i]
-        code = fr.f_code
-        if code not in (R.code_mkexc, R.code_serp, R.code_proxy, R.code_exth):
-            continue
-        line = linecache.getline(code.co_filename, ln)
-        innermost = i == len(frames) - 1
-        if code is R.code_mkexc:
-            if not innermost:
-                return None
-            data = fr.f_locals.get("data")
-            if "exceptiontype(*" in line:
-                if not isinstance(data, dict) or "args" not in data:
-                    return None
-                try:
-                    iter(data["args"])
-                except TypeError:
-                    return None
-                et = fr.f_locals.get("exceptiontype")
-                return "ctor:%s.%s" % (et.__module__, et.__qualname__)
-            if "setattr(" in line:
-                return "setattr"
-            return None
-        if code is R.code_serp:
-            if innermost and "float(" in line and isinstance(fr.f_locals.get("data"), dict) and "value" in fr.f_locals["data"]:
-                return "float"
-            return None
-        if code is R.code_proxy:
-            if "core.URI(" in line and not innermost:
-                return "uri"
-            if "set(state[" in line and innermost and not isinstance(x, (KeyError, IndexError)):
-                return "mkset"
-            return None
-        if code is R.code_exth:
-            if "raise " in line:
-                return None
+    inner = frames[-1]
+    for fr in reversed(frames):
+        if fr.f_code is R.code_exth:
             return "exthook"
-    return None
+    for i, fr in enumerate(frames):
+        if fr.f_code is R.code_proxy:
+            if i < len(frames) - 1:
+                return "uri" if frames[i + 1].f_code.co_filename == R.core.__file__ else None
+            if isinstance(x, (KeyError, IndexError)) or "subscriptable" in str(x):
+                return None
+            return "mkset"
+    if inner.f_code is R.code_serp:
+        data = next((v for v in inner.f_locals.values() if type(v) is dict and "__class__" in v), None)
+        if data is not None and data.get("__class__") == "float" and "value" in data:
+            return "float"
+        return None
+    if inner.f_code.co_filename != R.serializers.__file__:
+        return None
+    loc = list(inner.f_locals.values())
+    etypes = [v for v in loc if isinstance(v, type) and issubclass(v, BaseException)]
+    datas = [v for v in loc if type(v) is dict and "__class__" in v]
+    if len(etypes) != 1 or not datas:
+        return None
+    et, data = etypes[0], datas[0]
+    if any(type(v) is et or (isinstance(v, et) and isinstance(v, BaseException) and not isinstance(v, type)) for v in loc):
+        return "setattr" if type(data.get("attributes")) is dict else None
+    if "args" not in data:
+        return None
+    try:
+        iter(data["args"])
+    except TypeError:
+        return None
+    return "ctor:%s.%s" % (et.__module__, et.__qualname__)
 
 
 # ------------------------------------------------------------------------------------------------
